@@ -212,7 +212,7 @@ pub fn oracle(case: &Case, res: &McResult) -> Outcome {
     for (ci, c) in res.conns.iter().enumerate() {
         match &c.out {
             CallOut::Ok(_) | CallOut::Abandoned(_) => {}
-            CallOut::Err(_, e) if e.contains("too many") => { labels.insert("connect_refused"); }
+            CallOut::Err(_, e) if (e.contains("TooManyActiveConnections") || e.contains("too many")) => { labels.insert("connect_refused"); }
             other => viol!("connect-outcome", "connect #{ci} ended as {:?}", other),
         }
     }
